@@ -23,6 +23,10 @@ cache sizes):
   permissive reading), counting the nonce itself.
 * **size bound** — at every yield point of every thread, and at the end through
   the public ``len()`` / ``stats()``, the cache holds ≤ ``capacity`` entries.
+
+Family ``full_race``: a launcher thread first fills the cache to capacity (or one below) with older, still live
+nonces and lets 1..ttl-1 seconds pass, then starts the racing threads — every accept goes through the make-room path
+while 'fewer than capacity distinct nonces arrived in that window' still holds for the raced nonces.
 """
 
 from __future__ import annotations
